@@ -41,7 +41,9 @@ FullNodes ==
     WithBogus(NC("Mul", "factor", 4)), WithBogus(N0("Sq")), WithBogus(NK("Rename", "a", "b")),
     N0("PSrc"), N0("PSrcInj"), N0("PSink"), N0("Touch"), NK("ProbeP", "a", ""),
     NC("CtxWP", "factor", 4), NS("SweepCtxW", <<2, 3>>), N0("SliceCtxW"),
-    NC("Mul", "factor", NullCfg), NC("MulDef", "factor", NullCfg), N0("IncIP"),           \* parameter configured as null     \* context-writing element: plain, swept, sliced
+    NC("Mul", "factor", NullCfg), NC("MulDef", "factor", NullCfg), N0("IncIP"),
+    NK("CtxBind", "", "b"), NK("CtxBind", "", "w"),                          \* context-key-bound context processor
+    Node("Rename", [x \in {"a"} |-> 5], "a", "b", <<>>), Node("Delete", [x \in {"a"} |-> 5], "a", "", <<>>),   \* key given in the node configuration           \* parameter configured as null     \* context-writing element: plain, swept, sliced
     Node("ProbeP", [x \in {"factor"} |-> 4], "factor", "", <<>>) }
 
 \* focus sets: fewer instances, longer programs
@@ -54,7 +56,8 @@ SliceNodes ==  \* slicers and sweeps
     NS("SweepCtxW", <<2, 3>>), N0("SliceCtxW") }
 CtxNodes ==    \* context processors
   { N0("Src0"), NK("Rename", "a", "b"), NK("Rename", "b", "a"), NK("Delete", "a", ""),
-    NK("Template", "a", "b"), NK("Probe", "a", ""), N0("CtxW"), NK("Rename", "w", "a") }
+    NK("Template", "a", "b"), NK("Probe", "a", ""), N0("CtxW"), NK("Rename", "w", "a"), NK("CtxBind", "", "b"),
+    Node("Rename", [x \in {"a"} |-> 5], "a", "b", <<>>), Node("Delete", [x \in {"a"} |-> 5], "a", "", <<>>) }
 KeyNodes ==    \* key names that generated class names fold together (rename:a.b:w vs rename:a_b:w, delete, probes)
   { N0("Src0"), NK("Probe", "a.b", ""), NK("Probe", "a_b", ""), NK("Rename", "a.b", "w"), NK("Rename", "a_b", "w"),
     NK("Delete", "a.b", ""), NK("Delete", "a_b", ""), NK("Rename", "a.b", "a_b"), NK("Rename", "w", "a.b") }
